@@ -112,7 +112,10 @@ def main():
         for f in os.listdir(out):
             if f.endswith(".log"):
                 continue
-            shutil.copy(f"{out}/{f}", dst)
+            if os.path.isdir(f"{out}/{f}"):
+                shutil.copytree(f"{out}/{f}", f"{dst}/{f}", dirs_exist_ok=True)
+            else:
+                shutil.copy(f"{out}/{f}", dst)
         notes = open(f"{out}/NOTES.md").read() if os.path.exists(f"{out}/NOTES.md") else ""
         res["breaks"] = cid
         res["needs_to_manifest"] = "see NOTES.md"
